@@ -109,7 +109,15 @@ fn make_real_tree(sc: &Scenario) -> std::io::Result<()> {
         if let Some(parent) = p.parent() {
             std::fs::create_dir_all(parent)?;
         }
-        std::fs::write(&p, b"")?;
+        if sc.symlinks.contains(&f.path) {
+            let shared = std::path::Path::new(&root).join("linked-from-elsewhere");
+            std::fs::create_dir_all(&shared)?;
+            let target = shared.join(format!("target{}.pas", rng_free_index(&f.path)));
+            std::fs::write(&target, b"")?;
+            std::os::unix::fs::symlink(&target, &p)?;
+        } else {
+            std::fs::write(&p, b"")?;
+        }
     }
     for rf in &sc.real_files {
         let p = std::path::Path::new(&root).join(&rf.path);
@@ -119,6 +127,10 @@ fn make_real_tree(sc: &Scenario) -> std::io::Result<()> {
         std::fs::write(&p, &rf.bytes)?;
     }
     std::env::set_current_dir(&root)
+}
+
+fn rng_free_index(path: &str) -> u64 {
+    crate::rng::hash_bytes(path.as_bytes()) % 1_000_000
 }
 
 pub fn remove_scratch(pid: i32) {
